@@ -94,6 +94,52 @@ def _loops(text, body_open):
     return out
 
 
+def desugar_for(text, body_open, n, itname, hits):
+    """R11: rewrite the n-th loop, which must be `for PAT in EXPR {`, into the loop Rust (and Verus' own
+    `for` support) desugars it to, so that invariant_except_break / ensures can be stated:
+        let mut IT = VerusForLoopWrapper::new(IntoIterator::into_iter(EXPR)); let ghost IT__snap0 = IT.snapshot@;
+        loop { let ghost IT__old = IT; let PAT = match IT.next() { Some(v) => v, None => { break; } }; <peek trigger> BODY }
+    Line structure is preserved."""
+    lp = _loops(text, body_open)
+    if n > len(lp):
+        raise CutError('anchor lost: desugar_for loop %d (function has %d loops)' % (n, len(lp)))
+    m = mask(text)
+    ob = lp[n - 1]
+    # find the keyword start
+    kws = [mm for mm in re.finditer(r'\b(while|loop|for)\b', text) if m[mm.start()] == CODE and mm.start() >= body_open and mm.start() < ob]
+    kw = kws[-1]
+    if kw.group(1) != 'for':
+        raise CutError('desugar_for: loop %d is `%s`, not `for`' % (n, kw.group(1)))
+    head = text[kw.end():ob]
+    # split at ` in ` at depth 0
+    hm = mask(head)
+    d = 0
+    pos = -1
+    for i, ch in enumerate(head):
+        if hm[i] != CODE:
+            continue
+        if ch in '([{':
+            d += 1
+        elif ch in ')]}':
+            d -= 1
+        elif d == 0 and head.startswith(' in ', i):
+            pos = i
+            break
+    if pos < 0:
+        raise CutError('desugar_for: cannot split `for PAT in EXPR`')
+    pat = head[:pos].strip()
+    expr = head[pos + 4:].strip()
+    nl = head.count('\n')
+    new_head = ('let mut %s = vstd::std_specs::iter::VerusForLoopWrapper::new(core::iter::IntoIterator::into_iter(%s)); '
+                'let ghost %s__snap0 = %s.snapshot@; loop ' % (itname, ' '.join(expr.split()), itname, itname)) + '\n' * nl
+    new_body_start = ('{ let ghost %s__old = %s; let %s = match %s.next() { Some(v__) => v__, None => { break; } }; '
+                      'proof { assert(vstd::std_specs::iter::trigger_peek_implications(vstd::std_specs::iter::IteratorSpec::peek(&%s__old.snapshot@, %s__old.index@))); } '
+                      % (itname, itname, ' '.join(pat.split()), itname, itname, itname))
+    text = text[:kw.start()] + new_head + new_body_start + text[ob + 1:]
+    hits['R11.for_desugared'] = hits.get('R11.for_desugared', 0) + 1
+    return text
+
+
 class Piece:
     """a run of generated lines with a common origin description"""
 
@@ -307,6 +353,9 @@ def _do_cut(asm, toks, block, tmpl_line):
     for tk, lines_, no in secs:
         if tk[0] == 'replace':
             text = _apply_replace(text, tk, hits, no)
+    for tk, lines_, no in secs:
+        if tk[0] == 'desugar_for':
+            text = desugar_for(text, 0, int(tk[1]), tk[2] if len(tk) > 2 else 'it', hits)
     m = mask(text)
     if kind == 'fn':
         fnkw = re.search(r'\bfn\s+' + re.escape(kv['name']) + r'\b', text)
@@ -323,7 +372,7 @@ def _do_cut(asm, toks, block, tmpl_line):
     fname = kv.get('rename', kv.get('name', kv.get('label', 'slice')))
     for tk, lines_, no in secs:
         t0 = tk[0]
-        if t0 == 'replace':
+        if t0 in ('replace', 'desugar_for'):
             continue
         if t0 == 'mutate':
             mutations.append((tk[1], tk[2], no))
